@@ -21,6 +21,7 @@ LEAN_MODULES = ["NiftyVerif.Core.Proto", "NiftyVerif.Props.C10"]
 DRIVER = "Driver/C10.lean"
 OBLIGATIONS = ["NiftyVerif.C10." + t for t in (
     "distribute_spec", "distribute_adj_spec", "distribute_adjoint", "analyze_distributed", "analyze_subspace",
+    "natural_bins_nonempty", "analyze_distributed_natural",
     "analyze_phase", "power_analyze_keep_phase", "asFound_guard_inverted", "power_operator_diag")]
 RULE = ("harmonic partner: RGSpace 1-3 D (dyadic distances) or LMSpace; binning natural / custom (bounds between or on "
         "k-lengths); product domains with the harmonic space at position 0, 1 or 2 among regular-grid factors; spectra: small "
